@@ -505,9 +505,7 @@ _benign_corpus()
 KNOWN_BRITTLE = {
     ("ben-C01-4", "C03"): "read_weights: manual round-up `if` rewritten as div_ceil, `<= -1` as `< 0` (integer identities beyond the normal form)",
     ("ben-C13-4", "C03"): "read_weights: div_ceil / `> 255` as `>= 256` / `% 2` as `& 1`",
-    ("ben-C05-4", "C03"): "execute_sequences: `counter += ll` rewritten as `counter = high`",
-    ("ben-C05-4", "C05"): "execute_sequences: `counter += ll` rewritten as `counter = high`",
-    ("ben-C12-3", "C03"): "read_probabilities / build_decoding_table: index loops rewritten as iter().enumerate() with continue",
+    ("ben-B12-4", "C03"): "decompress_literals: stream sizes read with u16::from_le_bytes([a, b]) — opaque to the linear bound engine, and the guard inventory compares the guard's bound as a normal-form tree",
 }
 
 # ---- C09: window counter accounting --------------------------------------------------------
